@@ -606,7 +606,8 @@ def event_strategy(draw, charset):
         if k == "data":
             v = draw(_data)
         elif k == "retry":
-            v = draw(st.sampled_from([0, 1, 3000, 10**9]))
+            v = draw(st.one_of(st.sampled_from([0, 1, 3000, 10**9, 2**31 - 1, 2**31, 2**32 - 1, 2**32, 2**53 + 1, 2**63 - 1, 2**63, 2**64]),
+                              st.integers(0, 2**70), st.integers(0, 9).map(lambda d: 10**(d * 3) * 7)))
         else:
             v = draw(_single)
         if isinstance(v, str) and not encodable(v, charset):
@@ -769,6 +770,10 @@ def field_cases():
             yield {"events": [{"event": v, "data": "d"}, {"data": "next"}], "charset": "utf-8", "pings": [0]}
             yield {"events": [{"id": v, "data": "d"}, {"data": "next"}, {"id": "", "data": "reset"}], "charset": "utf-8", "pings": [0, 1]}
             yield {"events": [{"retry": 1, "id": v, "event": v}, {"data": "d"}], "charset": "utf-8", "pings": []}
+    # integer retry over its whole range (reconnection times beyond 32 and 64 bits included), alone and with data
+    for r in (0, 1, 9, 10, 999, 86400000, 2**31 - 1, 2**31, 2592000000, 2**32 - 1, 2**32, 31536000000, 2**53, 2**63 - 1, 2**63, 2**64, 10**30):
+        yield {"events": [{"retry": r, "data": "d"}, {"data": "next"}], "charset": "utf-8", "pings": [0]}
+        yield {"events": [{"retry": r}, {"data": "after"}, {"retry": r + 1, "id": "i", "data": "x"}], "charset": "latin-1", "pings": []}
 
 
 _TEXTS = [
